@@ -607,7 +607,64 @@ def fam_worker(ctx, depth):
                               "comparison": "per step: NumRequeues(key), queue length after the backoff, key queued again"}
 
 
+def fam_events_after_failure(ctx, depth):
+    """event-driven, on the real controller (harness `reconcile`): a few reconciles of the set fail (API outage), the key waits
+    for its rate-limited retry (NumRequeues > 0, queue empty, next retry tens of milliseconds away); a pod or set event
+    arriving NOW must put the key into the queue at once — the backoff delays retries, never events."""
+    from props import reconcile_common as rc, gen
+    rng = ctx.rng
+    n = 24 if depth == "quick" else 300
+    gen.init_hashes()
+    scs = []
+    for _ in range(n):
+        reps = rng.choice([2, 3, 4])
+        t = rng.choice([1, 2, 3])
+        rev = gen.revname(t)
+        s = rc.mkset(replicas=reps, tmpl=t, policy=rng.choice(["OrderedReady", "Parallel"]))
+        have = list(range(reps - 1))
+        s["status"].update(replicas=len(have), ready=len(have), current=len(have), updated=len(have), currentRevision=rev,
+                           updateRevision=rev, observedGeneration=s["gen"], collisionCount=0)
+        pods = [rc.mkpod(i, rev, tmpl=t) for i in have]
+        api = rc.mkworld(s, pods, [rc.mkrev(rev, 1, t, hashlabel=gen.HASH[(t, 0)])], [])
+        kind = rng.choice(["pod-unready", "pod-fail", "slots", "pause", "replicas"])
+        ops = [{"op": "refresh", "what": "all", "notify": True}, {"op": "outage", "on": True}, {"op": "drain", "max": 8}, {"op": "outage", "on": False}]
+        if kind == "pod-unready":
+            ops += [{"op": "kubelet", "pod": "web-0", "ev": "unready"}, {"op": "refresh", "what": "pods", "notify": True}]
+        elif kind == "pod-fail":
+            ops += [{"op": "kubelet", "pod": "web-0", "ev": "fail"}, {"op": "refresh", "what": "pods", "notify": True}]
+        elif kind == "slots":
+            ops += [{"op": "edit", "field": "slots", "str": "[0]"}, {"op": "refresh", "what": "set", "notify": True}]
+        elif kind == "pause":
+            ops += [{"op": "edit", "field": "pause", "str": "true"}, {"op": "refresh", "what": "set", "notify": True}]
+        else:
+            ops += [{"op": "edit", "field": "replicas", "int": reps + 1}, {"op": "refresh", "what": "set", "notify": True}]
+        sc = rc.scenario(api, cache=rc.mkworld(None, [], [], []), ops=ops, tmpls=(1, 2, 3))
+        sc["_kind"] = kind
+        scs.append(sc)
+    outs = core.run_harness_parallel("reconcile", [{k: v for k, v in sc.items() if not k.startswith("_")} for sc in scs], shards=16)
+    waiting = 0
+    for sc, out in zip(scs, outs):
+        ctx.evaluations += 1
+        ctx.count("family:events-after-failure")
+        st = out["steps"]
+        drain, ev = st[2], st[-1]
+        bad = []
+        if drain.get("queue_len") == 0 and drain.get("requeues", 0) > 0 and ev.get("events", 0) > 0:
+            waiting += 1
+            if ev.get("queue_len", 0) < 1:
+                bad.append("informer: LOST WAKE-UP: after %d failed reconciles the key waits for its retry (queue empty); a %s event was "
+                           "delivered and the key is still not in the queue" % (drain["requeues"], sc["_kind"]))
+        if bad:
+            ctx.violations.append({"family": "events-after-failure", "input": {k: v for k, v in sc.items() if not k.startswith("_")},
+                                   "observed": {"drain_requeues": drain.get("requeues"), "event_step": ev}, "clauses": bad,
+                                   "signature": {"kind": "lost-wakeup-after-failure"}})
+        ctx.nontriv(["events-after-failure", sc["_kind"]])
+    ctx.families["events-after-failure"] = {"histories": n, "with_the_key_waiting_for_a_retry_when_the_event_arrived": waiting,
+                                            "tie": "monitor only (real handlers, real rate-limited queue with the default backoff)"}
+
+
 def run(ctx, depth):
+    fam_events_after_failure(ctx, depth)
     # regressions first; the family that replays the refuted clause (known defect of the current tree) last, so
     # that the replay file of a run names a new failure whenever there is one
     fam_shapes(ctx, depth)
